@@ -149,26 +149,27 @@ sim_alloc_live_sites (const void **sites, size_t *sizes, int *ops, int n)
 
 /* per-call-site statistics of faults that actually fired */
 #define MAX_SITES 128
-static struct { const void *site; int64_t fired; } fsites[MAX_SITES];
+static struct { const void *site, *outer; int64_t fired; } fsites[MAX_SITES];
 static int n_fsites;
+static const void *cur_outer;      /* caller of the caller: tells pixman_malloc_ab()'s users apart */
 
 static void
 note_fired (const void *site)
 {
     int i;
     for (i = 0; i < n_fsites; i++)
-	if (fsites[i].site == site) { fsites[i].fired++; return; }
-    if (n_fsites < MAX_SITES) { fsites[n_fsites].site = site; fsites[n_fsites++].fired = 1; }
+	if (fsites[i].site == site && fsites[i].outer == cur_outer) { fsites[i].fired++; return; }
+    if (n_fsites < MAX_SITES) { fsites[n_fsites].site = site; fsites[n_fsites].outer = cur_outer; fsites[n_fsites++].fired = 1; }
 }
 
 void
 sim_fault_site_stats (void)
 {
     int i;
-    char name[64];
+    char name[72];
     for (i = 0; i < n_fsites; i++)
     {
-	snprintf (name, sizeof name, "fault_site@%p", fsites[i].site);
+	snprintf (name, sizeof name, "fault_site@%p@%p", fsites[i].site, fsites[i].outer);
 	sim_count (name, fsites[i].fired);
 	fsites[i].fired = 0;
     }
@@ -203,6 +204,7 @@ __wrap_malloc (size_t n)
     void *p;
     const void *site = __builtin_return_address (0);
     if (!sim_alloc.tracking || !sim_alloc.armed) return __real_malloc (n);
+    cur_outer = __builtin_return_address (1);
     if (should_fail (ENTRY_MALLOC, site)) return NULL;
     p = __real_malloc (n);
     if (p) tab_add (p, n, site);
@@ -215,6 +217,7 @@ __wrap_calloc (size_t a, size_t b)
     void *p;
     const void *site = __builtin_return_address (0);
     if (!sim_alloc.tracking || !sim_alloc.armed) return __real_calloc (a, b);
+    cur_outer = __builtin_return_address (1);
     if (should_fail (ENTRY_CALLOC, site)) return NULL;
     p = __real_calloc (a, b);
     if (p) tab_add (p, a * b, site);
@@ -239,6 +242,7 @@ __wrap_realloc (void *old, size_t n)
 	/* do not pass an unknown pointer on: behave like a failed realloc */
 	return NULL;
     }
+    cur_outer = __builtin_return_address (1);
     if (should_fail (ENTRY_REALLOC, site)) return NULL;     /* old block stays valid, as with real realloc */
     p = __real_realloc (old, n);
     if (p)
